@@ -13,13 +13,13 @@ import (
 	"encoding/json"
 	"errors"
 	"fmt"
-	"io"
 	"net/http/httptest"
 	"net/url"
 	"reflect"
 	"sort"
 	"strconv"
 	"strings"
+	"sync"
 	"unicode/utf8"
 
 	"storj.io/drpc"
@@ -28,6 +28,7 @@ import (
 	"storj.io/drpc/drpcmetadata"
 
 	"verifharness/payload"
+	"verifharness/rig"
 	"verifharness/runner"
 )
 
@@ -709,7 +710,89 @@ func gen(tier string, seed uint64) []runner.Scenario {
 			a.smp = map[string]interface{}{"content_type": ct, "sizes": []int{limit - 1, limit, limit + 1, limit + (1 << 20)}}
 		})
 	}
-	_ = io.EOF
+	// 4. one gateway handler shared by concurrent requests (as net/http does): responses must not mix
+	for _, ct := range grpcCTs {
+		ct := ct
+		add("concurrent/"+ct, func(a *acc) {
+			h := drpchttp.New(rig.HandlerFunc(func(stream drpc.Stream, rpc string) error {
+				var m []byte
+				if err := stream.MsgRecv(&m, payload.Enc{}); err != nil {
+					return err
+				}
+				hdr, err := payload.Parse(m)
+				if err != nil {
+					return err
+				}
+				for i := 0; i < 3; i++ {
+					out := payload.Make(hdr.Tag, 1, 0, uint32(i), 20+int(hdr.Tag%200))
+					if err := stream.MsgSend(&out, payload.Enc{}); err != nil {
+						return err
+					}
+				}
+				return nil
+			}))
+			workers, per := 12, 40
+			if thorough {
+				per = 400
+			}
+			var wg sync.WaitGroup
+			var mu sync.Mutex
+			for w := 0; w < workers; w++ {
+				w := w
+				wg.Add(1)
+				go func() {
+					defer wg.Done()
+					for i := 0; i < per; i++ {
+						tag := uint64(w*100000 + i)
+						req := httptest.NewRequest("POST", "/svc/M", bytes.NewReader(buildRequest(ct, payload.Make(tag, 0, 0, 0, 10))))
+						req.Header.Set("Content-Type", ct)
+						rec := httptest.NewRecorder()
+						h.ServeHTTP(rec, req)
+						raw := rec.Body.Bytes()
+						var err error
+						if isText(ct) {
+							raw, err = decodeText(raw)
+						}
+						var frames []gframe
+						if err == nil {
+							frames, err = parseGrpcWeb(raw)
+						}
+						bad := ""
+						if err != nil {
+							bad = err.Error()
+						} else if len(frames) != 4 || frames[3].flag != 0x80 || !strings.HasPrefix(string(frames[3].data), "grpc-status: 0\r\n") {
+							bad = fmt.Sprintf("%d frames / bad trailer", len(frames))
+						} else {
+							for k := 0; k < 3; k++ {
+								var body []byte
+								if isJSON(ct) {
+									if json.Unmarshal(frames[k].data, &body) != nil {
+										bad = "message is not the JSON encoding"
+										break
+									}
+								} else {
+									body = frames[k].data
+								}
+								hd, perr := payload.Parse(body)
+								if perr != nil || hd.Tag != tag || hd.Seq != uint32(k) {
+									bad = fmt.Sprintf("message %d of request %d: %v (tag %d seq %d)", k, tag, perr, hd.Tag, hd.Seq)
+									break
+								}
+							}
+						}
+						mu.Lock()
+						a.n++
+						if bad != "" {
+							a.fail("concurrent-response-corrupt", "ct=%q request tag %d under %d concurrent requests: %s", ct, tag, workers, bad)
+						}
+						mu.Unlock()
+					}
+				}()
+			}
+			wg.Wait()
+			a.smp = map[string]interface{}{"content_type": ct, "concurrent_workers": workers, "requests_each": per}
+		})
+	}
 	return out
 }
 
@@ -726,6 +809,7 @@ func main() {
 		Gen:           gen,
 		InProc:        true,
 		Parallel:      8,
+		Procs:         16,
 		MinNontrivial: 5000,
 	})
 }
